@@ -244,7 +244,11 @@ class Validator:
         # include position details
 
         if "__position__" in d:
-            if not path or key not in d["__position__"]:
+            child = d.get(key) if path else None
+            if isinstance(child, dict) and "__position__" in child:
+                # an error in a nested block (e.g. WEB, LEGEND) is located at that block
+                pd = child["__position__"]
+            elif not path or key not in d["__position__"]:
                 # position for the root object is stored in the root of the dict
                 pd = d["__position__"]
             else:
